@@ -87,8 +87,12 @@ func (mp MultiPolygon) Centroid() Point {
 				cy += (r[i].Y + r[i+1].Y) *
 					(r[i].X*r[i+1].Y - r[i+1].X*r[i].Y)
 			}
-			cx /= 6 * a
-			cy /= 6 * a
+			// The moments above carry the sign of the ring's winding; divide by
+			// the signed area so that the ring centroid does not depend on it.
+			// The weight a below is negative for holes.
+			s := signedarea(r)
+			cx /= 6 * s
+			cy /= 6 * s
 			A += a
 			xA += cx * a
 			yA += cy * a
